@@ -66,6 +66,19 @@ SeqCases ==
   {[kind |-> "seq", tag |-> t, attrs |-> as, opts |-> BoolOpts(mp, ton, TRUE, <<>>)] :
      t \in {TagHtml("div"), TagComp("Foo", TRUE, Opq("vFoo"))}, as \in AttrSeqs, mp \in BOOLEAN, ton \in BOOLEAN}
 
+(* a repeated mergeable name whose two occurrences are *not* adjacent (the static merge must find the first   *)
+(* occurrence anywhere in the pending segment, and must not look across a spread)                              *)
+Middles == {a \in AttrAtoms : NameOf(a) \in {"id", "disabled", "foo", "baz", "class", "style", "onClick", "on"}}
+              \cup {Spread(Ident("sp1", FALSE, Obj(<< <<"class", S(<<101>>)>>, <<"id", Opq("vsp1id")>>, <<"onClick", H3>>,
+                                                      <<"style", Obj(<< <<"top", Num(2)>> >>)>> >>)))}
+Sandwiches == {<<a, m, b>> : a \in AttrAtoms, m \in Middles, b \in AttrAtoms}
+SandwichCases ==
+  {[kind |-> "seq", tag |-> t, attrs |-> as, opts |-> BoolOpts(mp, ton, TRUE, <<>>)] :
+     t \in {TagHtml("div"), TagComp("Foo", TRUE, Opq("vFoo"))},
+     as \in {x \in Sandwiches : NameOf(x[1]) = NameOf(x[3]) /\ NameOf(x[1]) \in {"class", "style", "onClick"}
+                                 /\ NameOf(x[2]) # NameOf(x[1]) /\ InDomain(x)},
+     mp \in BOOLEAN, ton \in BOOLEAN}
+
 TagCases ==
   {[kind |-> "tag", tag |-> t, attrs |-> as, opts |-> BoolOpts(mp, ton, opt, pats)] :
      t \in Tags,
@@ -79,7 +92,7 @@ FormCases ==
      v \in ValueForms, mp \in BOOLEAN}
 
 CaseSeq ==
-  LET raw == SetToSeq(SeqCases \cup TagCases \cup FormCases) IN
+  LET raw == SetToSeq(SeqCases \cup SandwichCases \cup TagCases \cup FormCases) IN
   [i \in 1..Len(raw) |->
      [case |-> "C01-" \o ToString(i), prop |-> "C01", opts |-> raw[i].opts, kind |-> raw[i].kind,
       items |-> << [k |-> "export_jsx", name |-> "s1", ctx |-> "module",
